@@ -1065,6 +1065,65 @@ def loopify_return_comp(node: ast.FunctionDef, acc: str = "__acc") -> ast.Functi
     return new
 
 
+def with_roles(fn, roles):
+    """a copy of the (normalised) function whose locals are renamed to the names of their ROLES.
+
+    Several rules were written against the names the repository happens to use for its locals (`notes`, `den_max`, `bpm_ix`);
+    renaming a local is the most ordinary behaviour-preserving edit there is.  A rule therefore declares the roles it talks
+    about as (canonical name, predicate) pairs; the predicate sees every binding of a local — `pred(name, value, stmt[, function node])` with
+    value = the assigned expression (None for loop / with / unpacking targets) and stmt the binding statement — and says whether
+    that binding is the defining one for the role.  If exactly one local qualifies it is renamed to the canonical name
+    throughout the function (unless that name is already taken by something else); roles are applied in order, so a later
+    predicate may mention earlier canonical names.  Parameters keep their names (they are API).  Returns a new Fn; nothing is
+    executed."""
+    import dataclasses
+    node = copy.deepcopy(fn.node)
+    params = {a.arg for a in node.args.posonlyargs + node.args.args + node.args.kwonlyargs}
+    for canon, pred in roles:
+        cands = []
+        for st in ast.walk(node):
+            binds = []
+            if isinstance(st, ast.Assign):
+                for t in st.targets:
+                    if isinstance(t, ast.Name):
+                        binds.append((t.id, st.value))
+                    elif isinstance(t, (ast.Tuple, ast.List)):
+                        vs = st.value.elts if isinstance(st.value, (ast.Tuple, ast.List)) and len(st.value.elts) == len(t.elts) else [None] * len(t.elts)
+                        for te, ve in zip(t.elts, vs):
+                            if isinstance(te, ast.Name):
+                                binds.append((te.id, ve))
+            elif isinstance(st, ast.AnnAssign) and isinstance(st.target, ast.Name):
+                binds.append((st.target.id, st.value))
+            elif isinstance(st, ast.AugAssign) and isinstance(st.target, ast.Name):
+                binds.append((st.target.id, st.value))
+            elif isinstance(st, (ast.For, ast.comprehension)):
+                for te in ast.walk(st.target):
+                    if isinstance(te, ast.Name):
+                        binds.append((te.id, None))
+            for nm, val in binds:
+                if nm in params:
+                    continue
+                try:
+                    try:
+                        ok = pred(nm, val, st, node)
+                    except TypeError:
+                        ok = pred(nm, val, st)
+                except Exception:
+                    ok = False
+                if ok and nm not in cands:
+                    cands.append(nm)
+        if len(cands) != 1 or cands[0] == canon:
+            continue
+        taken = any(isinstance(n, ast.Name) and n.id == canon for n in ast.walk(node)) or canon in params
+        if taken:
+            continue
+        old = cands[0]
+        for n in ast.walk(node):
+            if isinstance(n, ast.Name) and n.id == old:
+                n.id = canon
+    return dataclasses.replace(fn, node=node)
+
+
 def normalise(M, fn, subst: bool = False, guards: bool = False, keep=(), comps: bool = False, ifexp: bool = False, closures: bool = False) -> ast.FunctionDef:
     """a normalised deep copy of fn.node (see module docstring)"""
     node = copy.deepcopy(fn.node)
